@@ -69,6 +69,10 @@ func (fm *FileHandleMap) Allocate(f absfs.File) uint64 {
 		}
 		// Evict starting from the lowest handles
 		for h := minHandle; evictCount > 0; h++ {
+			if h == handle {
+				// never evict the handle being returned: a reused low id is not an old handle
+				continue
+			}
 			if file, exists := fm.handles[h]; exists {
 				// Clean up path mapping for evicted entries
 				if node, ok := file.(*NFSNode); ok {
